@@ -31,7 +31,7 @@ McCalls == Plain \cup (IF Wide THEN RagW ELSE RagQ)
 \* ---------------------------------------------------------------- emission
 ElOut(el) ==
     CASE el.t = "table"   -> [t |-> "table", nr |-> el.tb.nr, nc |-> el.tb.nc, off |-> el.tb.off, hdr |-> el.tb.hdr, hm |-> el.tb.hm,
-                              hrows |-> SetToSortSeq(HdrRowsOf(el.tb.hm, el.tb.nr), <), merged |-> HasMerge(el.tb),
+                              hrows |-> SetToSortSeq(HdrRowsOf(el.tb.hm, el.tb.nr), <), merged |-> HasMerge(el.tb), ragged |-> IsRagged(el.tb),
                               src |-> Src(el.tb), special |-> Special(el.tb), nav |-> el.nav]
       [] el.t = "heading" -> [t |-> "heading", level |-> el.level, w |-> el.w, nav |-> el.nav]
       [] el.t = "list"    -> [t |-> "list", items |-> el.items, uniform |-> Uniform(el.items), nav |-> el.nav]
